@@ -147,7 +147,7 @@ def algKeyH : Handler
 end Aka
 
 def akaHandlers : List (String × Handler) := [
-  ("aka_derive", Aka.derive), ("aka_derive_after", fun a => Aka.derive (a.take 12)), ("aka_derive_twice", fun a => Aka.derive (a.take 12)), ("aka_derive_x", Aka.derive), ("aka_snname", Aka.snname),
+  ("aka_derive", Aka.derive), ("aka_derive_after", fun a => Aka.derive (a.take 12)), ("aka_derive_twice", fun a => Aka.derive (a.take 12)), ("aka_derive_x", Aka.derive), ("aka_register", Aka.derive), ("aka_snname", Aka.snname),
   ("aka_kdf", Aka.kdfRaw), ("aka_kdfp", Aka.kdfP), ("aka_kdflen", Aka.kdfLen), ("aka_consts", Aka.consts),
   ("aka_kamf", Aka.kamfH), ("aka_algkey", Aka.algKeyH)
 ]
